@@ -964,9 +964,20 @@ class SymExec:
             r = self._effect_call(st, p)
             if r is not None:
                 return r
+        if isinstance(st, ast.If) and self.props and not getattr(st, '_test_done', False):
+            # properties read in the test are looked through (a property with several paths forks the walk)
+            alts = self.eval_expr(st.test, p)
+            if len(alts) > 1 or (alts and norm(alts[0][0]) != norm(self.subst(st.test, p.env))):
+                out = []
+                for t_, p_ in alts:
+                    st2 = ast.If(test=t_, body=st.body, orelse=st.orelse)
+                    ast.copy_location(st2, st)
+                    st2._test_done = True
+                    out += self._stmt(st2, p_)
+                return out
         if isinstance(st, ast.If):
             out = []
-            test = self.subst(st.test, p.env)
+            test = st.test if getattr(st, '_test_done', False) else self.subst(st.test, p.env)
             for val, blk in ((True, st.body), (False, st.orelse)):
                 if isinstance(test, ast.Constant) and bool(test.value) != val:
                     continue        # the test is a known constant on this path
